@@ -203,9 +203,11 @@ def analyze_trace(args):
                    'fuel_od': 7, 'fuel_cl': 8}
             for k in peak_temps:
                 hot, peak = [], []
-                want_ids = sorted(a.id for a in r.assemblies
-                                  if a.name in r._options['hotspot']
-                                  and k in r._options['hotspot'][a.name])
+                # the assemblies for which the input requests location k
+                want_ids = sorted(
+                    a.id for a in r.assemblies
+                    if any(h.get('temperature') == k for h in
+                           case['types'][a.name].get('Hotspot', {}).values()))
                 for a in r.assemblies:
                     if a.id not in want_ids:
                         continue
